@@ -39,7 +39,7 @@ def dec(s):
 
 def native(script, scn, timeout=120):
     p = subprocess.run([VENV_PY, os.path.join(HERE, script)], input=json.dumps(scn), capture_output=True, text=True, timeout=timeout,
-                       env=dict(os.environ, PYTHONPATH='/repo', PYTHONHASHSEED='0'))
+                       env=dict(os.environ, PYTHONPATH=os.environ.get('PYVC_REPO', '/repo'), PYTHONHASHSEED='0'))
     if p.returncode != 0:
         raise RuntimeError('native replay failed: ' + p.stderr[-2000:])
     return json.loads(p.stdout.strip().splitlines()[-1])
